@@ -58,12 +58,9 @@ structure Conf where
 
 abbrev State := Option Conf
 
-def showConf : Except ConfErr Access → String
-  | .ok _ => "ok"
-  | .error (.allowed i) => "errA\t" ++ toString i
-  | .error (.blocked i) => "errB\t" ++ toString i
-
-def stepConf (ins impl : List String) : Option (State × String) := do
+/-- Parse the configuration fields; returns the model's verdict on it and the
+fields that follow the blocked-hosts list. -/
+def parseConf (ins : List String) : Option (Except ConfErr Conf × List String) := do
   match ins with
   | srv :: strict :: nA :: rest =>
     let srv ← hexDecode srv
@@ -74,16 +71,30 @@ def stepConf (ins impl : List String) : Option (State × String) := do
       let (bl, rest) ← parseEntries (← nB.toNat?) rest
       -- blocked-hosts rules: opaque to the model (oracle), only checked for shape
       match rest with
-      | nH :: hosts => if hosts.length ≠ (← nH.toNat?) then none
+      | nH :: rest =>
+        let nH ← nH.toNat?
+        if rest.length < nH then none
+        let m := match newAccessCtx al bl with
+          | .ok a => Except.ok (⟨al, bl, a, srv, strict⟩ : Conf)
+          | .error e => .error e
+        pure (m, rest.drop nH)
       | [] => none
-      let m := newAccessCtx al bl
-      let st : State := match m with
-        | .ok a => some ⟨al, bl, a, srv, strict⟩
-        | .error _ => none
-      let out := showConf m
-      pure (st, verdict (out == "\t".intercalate impl) none out)
     | [] => none
   | _ => none
+
+def showConf : Except ConfErr Conf → String
+  | .ok _ => "ok"
+  | .error (.allowed i) => "errA\t" ++ toString i
+  | .error (.blocked i) => "errB\t" ++ toString i
+
+def stepConf (ins impl : List String) : Option (State × String) := do
+  let (m, rest) ← parseConf ins
+  if rest ≠ [] then none
+  let st : State := match m with
+    | .ok c => some c
+    | .error _ => none
+  let out := showConf m
+  pure (st, verdict (out == "\t".intercalate impl) none out)
 
 def ruleName : Rule → String
   | .none => "none" | .ip => "ip" | .net => "net" | .clientID => "cid"
@@ -121,8 +132,7 @@ def stepQ (st : State) (ins impl : List String) : Option String := do
         strict := c.strict }
       let cid := C16.clientIDFromCtx ctx
       let r : Request := { proto := proto, addr := ip, clientID := cid, nq := nq, hostBlocked := hostBlocked }
-      let id := match cid with | .ok id => id | .error _ => []
-      let (mb, mrule) := c.access.isBlockedClient ip id
+      let (mb, mrule) := c.access.isBlockedClient ip r.effectiveID
       let (mact, mcached) := handleBefore c.access r
       let out := "\t".intercalate [if mb then "1" else "0", ruleName mrule, actionName mact, hexEncode mcached]
       let spec : Option String :=
@@ -135,6 +145,78 @@ def stepQ (st : State) (ins impl : List String) : Option String := do
         | _ => some "C03.unparsable-observation"
       pure (verdict (out == "\t".intercalate impl) spec out)
   | _ => none
+
+/-! Socket run: one line = configuration + K real requests (harness
+c03sock_test.go).  The model is `serve` with a `process` that resolves,
+filters, logs and counts every request it is given exactly once. -/
+
+def processAll (r : Request) : Effects × Option Reply :=
+  ({ filtered := [r], upstream := [r], logged := [r], counted := [r] }, some .processed)
+
+def replyName : Option Reply → String
+  | none => "none" | some .refused => "refused" | some .servfail => "servfail"
+  | some .processed => "processed"
+
+/-- Per request: model output fields, number of requests filtered, spec failure. -/
+def sockReqs (c : Conf) : List String → List String → Option (List String × Nat × Option String)
+  | [], _ => some ([], 0, none)
+  | proto :: ipk :: addr :: zone :: sni :: hostBlocked :: _qname :: _qtype :: rest, impl => do
+    let proto ← parseProto proto
+    let ip ← parseIP ipk addr zone
+    let sni ← hexDecode sni
+    let hostBlocked ← parseBool hostBlocked
+    let ctx : C16.Ctx := {
+      proto := proto, path := none, httpTLS := none, hostHdr := [], hostSplit := none
+      connSNI := some sni, hostSrvName := c.srvName, strict := c.strict }
+    let r : Request := { proto := proto, addr := ip, clientID := C16.clientIDFromCtx ctx, nq := 1,
+                         hostBlocked := hostBlocked }
+    let (eff, rep) := serve c.access processAll r
+    let out := [replyName rep, toString eff.upstream.length, toString eff.logged.length,
+                toString eff.counted.length]
+    -- spec on the implementation's observation of this request
+    let (spec, implRest) : Option String × List String :=
+      match impl with
+      | irep :: iup :: ilog :: icnt :: implRest =>
+        let act : Option Action := match irep with
+          | "none" => some .drop | "refused" => some .refused | "servfail" => some .servfail
+          | "processed" => some .pass | _ => none
+        let ex := excluded c.allowed c.blocked ip r.effectiveID
+        let touched := iup != "0" || ilog != "0" || icnt != "0"
+        let s : Option String :=
+          match act with
+          | none => some "C03.sock-unexpected-reply"
+          | some act =>
+            -- `blocked` is not observable on the wire: judge the action with the expected decision
+            match specFail ⟨c.allowed, c.blocked, r⟩ ⟨ex, act⟩ with
+            | some w => some (w.token ++ "-on-the-wire")
+            | none =>
+              if (ex || nameBlocked r) && touched then some "C03.refused-request-left-traces" else none
+        (s, implRest)
+      | _ => (some "C03.unparsable-observation", [])
+    let (outs, nf, spec') ← sockReqs c rest implRest
+    pure (out ++ outs, nf + eff.filtered.length, spec.orElse fun _ => spec')
+  | _, _ => none
+
+def stepSock (ins impl : List String) : Option String := do
+  let (m, rest) ← parseConf ins
+  match m with
+  | .error _ => pure (verdict (impl.head? == some "starterr") none "starterr")
+  | .ok c =>
+    match rest with
+    | k :: reqs =>
+      if reqs.length ≠ 8 * (← k.toNat?) then none
+      let (outs, nf, spec) ← sockReqs c reqs impl
+      let out := "\t".intercalate (outs ++ [toString nf])
+      -- the filtering hook may run more than once per processed request: compare "≥"
+      let implF := impl.getLast?.bind String.toNat?
+      let agree := impl.dropLast == outs &&
+        (match implF with | some f => (nf == 0 && f == 0) || (nf > 0 && f ≥ nf) | none => false)
+      let spec := spec.orElse fun _ =>
+        match implF with
+        | some f => if nf == 0 && f != 0 then some "C03.refused-request-was-filtered" else none
+        | none => none
+      pure (verdict agree spec out)
+    | [] => none
 
 def step (st : State) (line : String) : State × String :=
   let fs := splitTab line
@@ -149,6 +231,10 @@ def step (st : State) (line : String) : State × String :=
   | "C03.q" :: rest =>
     match splitArrow rest with
     | some (ins, impl) => (st, (stepQ st ins impl).getD "bad-op")
+    | none => (st, "bad-op")
+  | "C03.sblock" :: rest =>
+    match splitArrow rest with
+    | some (ins, impl) => (st, (stepSock ins impl).getD "bad-op")
     | none => (st, "bad-op")
   | _ => (st, "bad-op")
 
